@@ -66,6 +66,9 @@ func runScenario(id, valspec, cmdspec, schedspec string, settle time.Duration) s
 		}
 	}
 	nodis.VerifSetController(func(point string) {
+		if strings.HasPrefix(point, "b:") {
+			return // the points of the blocking-pop path belong to the block mode
+		}
 		v, ok := reg.Load(goid())
 		if !ok {
 			return
